@@ -592,7 +592,19 @@ class Unit:
     def build(self):
         head = '\n'.join(self.header + self.uses) + '\nverus! {\n'
         tail = '\n} // verus!\nfn main() {}\n'
-        chunks = [Chunk(head, ('gen', 'header'))] + self.chunks + [Chunk(tail, ('gen', 'tail'))]
+        # std::cmp::min / max: vstd has no specification; assumed here (only when the extracted code uses them),
+        # so that a clamp added to a function under contract is decided rather than reported as unsupported
+        body_text = ''.join(c.text for c in self.chunks if c.origin[0] == 'src')
+        extra = []
+        for fn, pick in (('min', '{ b } else { a }'), ('max', '{ a } else { b }')):
+            if re.search(r'\bcmp::%s\s*\(' % fn, body_text):
+                what = 'std::cmp::%s (assumed: the smaller/larger argument under OrdSpec::cmp_spec)' % fn
+                extra.append(Chunk('pub assume_specification<T: Ord> [std::cmp::%s] (a: T, b: T) -> (r: T)\n'
+                                   '    ensures <T as vstd::std_specs::cmp::OrdSpec>::obeys_cmp_spec() ==> r == (if vstd::std_specs::cmp::OrdSpec::cmp_spec(&a, &b) == core::cmp::Ordering::Greater %s);\n'
+                                   % (fn, pick), ('trusted', what, 1)))
+                if what not in self.trusted:
+                    self.trusted.append(what)
+        chunks = [Chunk(head, ('gen', 'header'))] + extra + self.chunks + [Chunk(tail, ('gen', 'tail'))]
         # flatten with line origins
         lines = []
         origins = []
